@@ -8,7 +8,10 @@ use vlab::util::J;
 fn parts() -> Vec<(Kind, TKind)> {
     let mut v = vec![];
     for k in [Kind::Blk, Kind::Socket, Kind::Console, Kind::NetRaw, Kind::P9] {
-        for t in [TKind::MmioModern, TKind::Pci] {
+        // Legacy MMIO: version 1 of the register layout defines no ConfigGeneration, but the
+        // driver reads offset 0xfc on every version; a legacy device that does keep a generation
+        // counter there (as the register model does) is therefore protected too.
+        for t in [TKind::MmioModern, TKind::Pci, TKind::MmioLegacy] {
             v.push((k, t));
         }
     }
@@ -33,7 +36,7 @@ fn main() {
     }
     let mut c = Check::new("C13", args.tier, "model_checking");
     c.rule = "(a) every transport (MMIO legacy/modern, PCI) x window size 0..24 (and no window) x 7 access types x every aligned offset up to window+8 plus offsets near usize::MAX, 2^63 and 2^32, reads and writes; (b) DFS over schedules: the device may bump its configuration generation before any individual register read of a multi-field read (at most 3 updates in the quick tier, 6 in the thorough tier), for block capacity, socket CID, console size, MAC and 9P tag on MMIO and PCI. distinct = distinct observation signatures".into();
-    c.assumptions = vec!["legacy MMIO devices have no configuration generation, so tearing cannot be excluded there and is not explored".into(), "the PCI transport's effective window is a whole number of 32-bit words; refusing the 1-3 tail bytes is permitted".into()];
+    c.assumptions = vec!["legacy MMIO: the register layout of version 1 defines no configuration generation; the tear exploration there assumes a device that keeps one at offset 0xfc, which is where the driver reads it on every version (against a legacy device returning a constant no implementation can exclude tearing)".into(), "the PCI transport's effective window is a whole number of 32-bit words; refusing the 1-3 tail bytes is permitted".into()];
     // (a)
     let mut ev = 0;
     let mut okc = 0;
